@@ -172,6 +172,18 @@ func VrfC08Query() {
 		}
 		po.Metadata[symKey] = vrf_nondet_string("meta_value_of_arbitrary_key")
 	}
+	// an expiry date: the same kind of instant in UTC, east and west of it, with
+	// and without a sub-second part (concrete: the text form is the real one)
+	if vrf_param("query_expiry") == 1 {
+		switch vrf_choice("expire_at", 4) {
+		case 1:
+			po.ExpireAt = time.Unix(1893456000, 0).UTC()
+		case 2:
+			po.ExpireAt = time.Unix(1893456000, 0).In(time.FixedZone("east", 2*3600))
+		case 3:
+			po.ExpireAt = time.Unix(1893456015, 123456789).In(time.FixedZone("west", -(5*3600 + 1800)))
+		}
+	}
 	qs, err := po.ToQuery()
 	vrf_assert(err == nil, "C08.query.encode-ok")
 	vals, err := url.ParseQuery(qs)
@@ -182,6 +194,7 @@ func VrfC08Query() {
 	if err != nil {
 		return
 	}
+	vrf_assert(back.ExpireAt.Equal(po.ExpireAt) && back.ExpireAt.IsZero() == po.ExpireAt.IsZero(), "C08.query.expire-at")
 	vrf_assert(back.Name == po.Name, "C08.query.name")
 	vrf_assert(back.Mode == po.Mode, "C08.query.mode")
 	vrf_assert(back.ReplicationFactorMin == po.ReplicationFactorMin, "C08.query.rmin")
